@@ -149,6 +149,9 @@ func init() {
 	// C08 / C09 after an arbitrary first request on the same witness instance (in-process state)
 	for _, id := range []string{"C08", "C09"} {
 		checks[id].Runs = append(checks[id].Runs, runSpec{Harness: pkgWitness + ".VerifUpdateTwoSteps", Quick: p("logs", 1, "signers", 1, "maxproof", 1, "replay", 0), Thorough: p("logs", 2, "signers", 1, "maxproof", 2, "replay", 0), Covers: []string{"two/both-accepted-same-log", "two/accepted-after-a-refusal-on-the-same-log"}})
+		// the same on the SQL store with its production pool of one connection: whatever the first request
+		// leaves open (a transaction, a row set) blocks the second one forever, which is reported as a deadlock
+		checks[id].Runs = append(checks[id].Runs, runSpec{Harness: pkgWitness + ".VerifUpdateTwoSteps", Quick: p("logs", 1, "signers", 1, "maxproof", 1, "replay", 0, "store", 1), Thorough: p("logs", 2, "signers", 1, "maxproof", 1, "replay", 0, "store", 1), Covers: []string{"two/both-accepted-same-log", "two/accepted-after-a-refusal-on-the-same-log"}})
 	}
 	strAssume := []string{"String domain: []byte/string are SMT-LIB strings (one code point per byte); base64 is an uninterpreted codec with dec(enc(x))=x, enc(x) free of CR/LF, enc(x)=\"\" iff x=\"\"", "bufio.Reader.ReadLine contract (4096-byte buffer; bodies bounded to 4000 bytes so the isPrefix case is outside the claim)", "strings.Split / proof line loops bounded by k"}
 	reg(&checkSpec{ID: "C11", Assumptions: strAssume, Runs: []runSpec{
@@ -198,7 +201,7 @@ func init() {
 		{Harness: pkgFeeder + ".VerifFeedOnce", Quick: p("attempts", 2, "maxproof", 1), Thorough: p("attempts", 2, "maxproof", 2)},
 		{Harness: pkgRest + ".VerifDistribute", Domain: sym.DomString, Solver: sym.CVC5, Quick: p("logs", 2), Thorough: p("logs", 2)},
 	}})
-	pcpRun := runSpec{Harness: pkgWitness + ".VerifParseCheckpointContract", Domain: sym.DomString, Solver: sym.CVC5, Quick: p("pcp_real", 1, "maxsplit", 5), Thorough: p("pcp_real", 1, "maxsplit", 5), Covers: []string{"pcp/accepts", "pcp/refuses-wrong-origin", "pcp/refuses-bad-signature"}}
+	pcpRun := runSpec{Harness: pkgWitness + ".VerifParseCheckpointContract", Domain: sym.DomString, Solver: sym.CVC5, Quick: p("pcp_real", 1, "maxsplit", 5), Thorough: p("pcp_real", 1, "maxsplit", 5), Covers: []string{"pcp/accepts", "pcp/refuses-wrong-origin", "pcp/refuses-bad-signature", "pcp/refuses-but-returns-the-note"}}
 	reg(&checkSpec{ID: "pcp", Runs: []runSpec{pcpRun}, Assumptions: commonAssumptions})
 	pcpT := pcpRun
 	pcpT.OnlyThorough = true // ~4 min of string queries: thorough tier (and ./check pcp)
